@@ -140,3 +140,19 @@ PROPS["C20"] = dict(
     outside="form conversions, barycentric evaluation, derived builders, sizes > 4",
     assumptions=["felt summaries of fr.Element", "fft.Generator(m) is a fixed element depending only on m"],
 )
+
+PROPS["C08"] = dict(
+    jobs=[Job(f, ["C08/conv.go.tmpl"], skip_quick="H_SetBytes_Exact" if f in ("ecc/bw6-633/fp", "ecc/bw6-761/fp") else None,
+              timeout_ms=60000) for f in FIELDS64],
+    level_text="Bounded proof, for the 20 multi-limb fields, that every byte / big.Int / word conversion entry point is exactly "
+               "'parse, validate, reduce, then toMont' resp. 'fromMont, then serialise': Bytes, Marshal, BigEndian/LittleEndian "
+               "PutElement and Element, SetBytesCanonical (accepts iff length = Bytes and value < q, receiver untouched on error), "
+               "SetBytes (lengths 0, 1, Bytes-1, Bytes, Bytes+1), SetBigInt for |v| < 2^(64*Limbs+64) of either sign, BigInt, Bits, "
+               "IsUint64, Uint64, Cmp, LexicographicallyLargest.",
+    level_note="toMont and fromMont are uninterpreted functions on limb vectors in this check; their arithmetic content is the "
+               "Montgomery lemma of C01 (Mul with the constant rSquare; fromMont not yet proved). Text formats (decimal, hex, JSON) "
+               "are outside this technique (strconv / big text parsing loops).",
+    bounds="all byte values symbolic; lengths as listed; |v| < 2^(64*Limbs+64)",
+    outside="text and JSON; Vector WriteTo/ReadFrom/AsyncReadFrom; SetInterface; one-word fields (goldilocks, koalabear, babybear)",
+    assumptions=["toMont / fromMont as opaque functions of the limb vector"],
+)
